@@ -71,6 +71,35 @@ def load_known():
         return json.load(f)
 
 
+def run_selftest(prop):
+    """Run the scripted mutants of one property (selftest/mutate.py) and summarise; validates the checker, not the property."""
+    import subprocess
+    base = "/tmp/tfv-selftest-%s-%d" % (prop, os.getpid())
+    env = dict(os.environ, TFV_SELFTEST_DIR=base, VERIF_TIER="quick")
+    jobs = os.environ.get("TFV_SELFTEST_JOBS", "8")
+    try:
+        r = subprocess.run([sys.executable, os.path.join(VERIF, "selftest", "mutate.py"), prop, "--jobs", jobs],
+                           env=env, cwd=VERIF, stdout=subprocess.PIPE, stderr=subprocess.STDOUT, text=True, timeout=3 * 3600)
+    except subprocess.TimeoutExpired:
+        return {"error": "timeout"}
+    finally:
+        import shutil
+        shutil.rmtree(base, ignore_errors=True)
+    lines = r.stdout.strip().splitlines()
+    summary = {}
+    try:
+        summary = json.loads(lines[-1])
+    except (ValueError, IndexError):
+        summary = {"error": r.stdout[-500:]}
+    summary["results"] = [l[:140] for l in lines[:-1]][:60]
+    for b in summary.get("bad", []):
+        print("SELFTEST-WEAK: property=%s mutant %s: %s (the check missed or mislabelled a scripted breakage; this is about the "
+              "checker's strength, not a violation on the current tree)" % (prop, b[0], b[1]))
+    print("%s selftest: %s mutants, %s caught, %s silent-ok (behaviour-preserving), %s skipped" % (
+        prop, summary.get("total"), summary.get("caught"), summary.get("silent_ok"), summary.get("skipped")))
+    return summary
+
+
 def run_property(prop, tier, seed, only_key=None):
     R = Report(prop, tier, seed)
     factdir, th, nfiles = facts.ensure_facts(tier)
@@ -83,6 +112,30 @@ def run_property(prop, tier, seed, only_key=None):
     except Exception as e:  # an analysis crash is not a pass
         R.fail("engine", "exception:%s" % type(e).__name__, "-",
                "rule engine raised %r (fail closed)\n%s" % (e, traceback.format_exc()))
+    thorough = {}
+    if tier == "thorough" and not only_key:
+        # (a) the same rules on trustfall_core built with the other feature set (`__private`): cfg-gated code is parsed too
+        alt = "trustfall_core--trustfall_core-rlib-__private+default.json"
+        if os.path.exists(os.path.join(factdir, alt)) and prop != "C24":
+            R2 = Report(prop, tier, seed)
+            ctx2 = Ctx(factdir, tier, th)
+            ctx2.core_file = alt
+            try:
+                mod.run(ctx2, R2)
+            except SystemExit:
+                raise
+            except Exception as e:
+                R2.fail("engine", "exception:%s" % type(e).__name__, "-", "rule engine raised %r on the __private feature set\n%s" % (e, traceback.format_exc()))
+            have = {v["key"] for v in R.violations}
+            extra = [v for v in R2.violations if v["key"] not in have]
+            for v in extra:
+                v["msg"] = "[feature set __private] " + v["msg"]
+                R.violations.append(v)
+            R.instances.extend(("alt:" + r, i) for r, i in R2.instances)
+            thorough["feature_sets"] = {"default": len(R.instances) - len(R2.instances), "__private+default": len(R2.instances),
+                                        "violations_only_in_alt": [v["key"] for v in extra]}
+            ctx.loaded |= ctx2.loaded
+        thorough["fact_files_in_workspace_set"] = len(ctx.all_fact_files())
     known = [k for k in load_known() if k["property"] == prop and k.get("status") == "known"]
     known_keys = {k["key"]: k for k in known}
     new = []
@@ -104,6 +157,9 @@ def run_property(prop, tier, seed, only_key=None):
             json.dump(v, f, indent=1)
         print("  %s: [%s] %s\n    at %s" % (prop, v["key"], v["msg"], v["where"]))
         print("VIOLATION property=%s replay=%s" % (prop, rp))
+    if tier == "thorough" and not only_key and not os.environ.get("TFV_REPO") and not os.environ.get("TFV_NO_SELFTEST"):
+        # (b) E4 self-test: scripted one-instance breakages of this property's rule instances on scratch copies of /repo
+        thorough["selftest"] = run_selftest(prop)
     units = {"fact_dir": os.path.basename(factdir), "tree_hash": th, "source_files_hashed": nfiles,
              "fact_files": sorted(os.path.basename(p) for p in ctx.loaded)}
     units.update(R.units)
@@ -126,6 +182,8 @@ def run_property(prop, tier, seed, only_key=None):
         "exhaustive": True,
     }
     cov.update(R.extra)
+    if thorough:
+        cov["thorough"] = thorough
     ev = {
         "property_id": prop,
         "tier": tier,
@@ -162,9 +220,11 @@ class Ctx:
                              % (name, c.meta.get("tree_hash"), self.tree_hash))
         return c
 
+    core_file = facts.CORE
+
     @property
     def core(self):
-        return self.crate(facts.CORE)
+        return self.crate(self.core_file)
 
     def all_fact_files(self):
         return sorted(f for f in os.listdir(self.factdir) if f.endswith(".json"))
